@@ -1124,6 +1124,11 @@ class Pipeline:
     def _validate(self) -> None:
         """Validate the pipeline."""
         validate_scopes(self.functions)
+        output_names = [name for f in self.functions for name in at_least_tuple(f.output_name)]
+        if len(output_names) != len(set(output_names)):
+            duplicates = sorted({name for name in output_names if output_names.count(name) > 1})
+            msg = f"The output names `{duplicates}` are produced by more than one function."
+            raise ValueError(msg)
         validate_consistent_defaults(self.functions, output_to_func=self.output_to_func)
         self._validate_mapspec()
         if self.validate_type_annotations:
